@@ -1,5 +1,6 @@
 import ArimModel.Assembly
 import ArimProofs.Tie.C08
+import ArimProofs.Tie.C03
 import ArimProofs.C13
 import Mathlib.Algebra.Group.Basic
 import Mathlib.Algebra.BigOperators.Group.Finset.Basic
@@ -350,4 +351,37 @@ example : sensitivityChunked (C := ℚ) 0 (fun x (n : Nat) => x / (n : ℚ)) (fu
 example : directivity (fun x => Real.sinc (Real.pi * x)) Real.sin 0.5 0 1.2 = 1 := directivity_normal_npsinc _ _
 
 end examples
+
+/-! ## The ray weights as the source assembles them on this run (`Generated/SrcC03.lean`, `Tie/C03.lean`) -/
+section OnSourceWeights
+open Arim.Tie.C03
+variable {C : Type} [CommMonoid C]
+
+/-- **every subset of switches, transmit side**: the weight is the product of exactly the enabled factors — directivity,
+forward transmission-reflection in displacement units, forward beamspread, attenuation — whatever the other fields hold -/
+theorem src_tx_weights_product (d b t a : Bool) (f : Arim.SrcC03.Factors C) :
+    Arim.SrcC03.tx_ray_weights d b t a 1 f =
+      (if d then f.directivity else 1) * (if t then f.transrefl_fwd_displacement else 1) *
+      (if b then f.beamspread_fwd else 1) * (if a then f.attenuation else 1) := rfl
+
+/-- **every subset of switches, receive side**: the reverse terms, times `sqrt(lambda)` of the last mode in every case -/
+theorem src_rx_weights_product (d b t a : Bool) (f : Arim.SrcC03.Factors C) :
+    Arim.SrcC03.rx_ray_weights d b t a 1 f =
+      (if d then f.directivity else 1) * (if t then f.transrefl_rev_displacement else 1) *
+      (if b then f.beamspread_rev else 1) * (if a then f.attenuation else 1) * f.sqrt_lambda_last_mode := rfl
+
+/-- a switched-off factor does not influence the weight (here attenuation, the slip of a copied guard) -/
+theorem src_attenuation_off (d b t : Bool) (f g : Arim.SrcC03.Factors C)
+    (h1 : f.directivity = g.directivity) (h2 : f.transrefl_fwd_displacement = g.transrefl_fwd_displacement)
+    (h3 : f.beamspread_fwd = g.beamspread_fwd) :
+    Arim.SrcC03.tx_ray_weights d b t false 1 f = Arim.SrcC03.tx_ray_weights d b t false 1 g := by
+  simp [src_tx_weights_product, h1, h2, h3]
+
+/-- ... and a switched-on one does: with attenuation on, the weight carries the attenuation factor -/
+theorem src_attenuation_on (d b t : Bool) (f : Arim.SrcC03.Factors C) :
+    Arim.SrcC03.tx_ray_weights d b t true 1 f = Arim.SrcC03.tx_ray_weights d b t false 1 f * f.attenuation := by
+  simp [src_tx_weights_product]
+
+end OnSourceWeights
+
 end Arim.C08
